@@ -73,9 +73,10 @@ def _init_worker(check, cfgs, alpha_args):
 
 
 def _expand(task):
-    ci, history, pre = task
+    ci, history, pre = task[:3]
+    part = task[3] if len(task) > 3 else None
     try:
-        return _expand_inner(ci, history, pre)
+        return _expand_inner(ci, history, pre, part)
     except common.ToolingError:
         raise
     except Exception as e:
@@ -88,11 +89,14 @@ def _expand(task):
         return [(("noop-marker",), ("exc",), None, None, [v])], _c.Counter()
 
 
-def _expand_inner(ci, history, pre):
+def _expand_inner(ci, history, pre, part=None):
     check, cfg, alpha = _CTX["check"], _CTX["cfgs"][ci], _CTX["alpha"]
     out = []
     counters = collections.Counter()
-    for op in check.ops(cfg):
+    ops = check.ops(cfg)
+    if part is not None:  # a small frontier is split by operation so that all workers have something to do
+        ops = ops[part[0]::part[1]]
+    for op in ops:
         if not check.enabled(op, pre, cfg, history):
             continue
         w = W.World.build(cfg, alpha, history)
@@ -206,9 +210,11 @@ def _bfs(pool, check, ci, cfg, bounds, res, t_start, budget_s, workers, log):
         if states >= max_states:
             capped = f"state cap {max_states} reached after completing depth {depth}"
             break
-        tasks = [(ci, h, pre) for (h, pre) in frontier]
+        split = max(1, min(8, workers // max(1, len(frontier)))) if len(frontier) < workers else 1
+        tasks = [(ci, h, pre, (j, split)) for (h, pre) in frontier for j in range(split)]
+        owners = [(h, pre) for (h, pre) in frontier for j in range(split)]
         new_frontier = []
-        for (h, pre), (succs, counters) in zip(frontier, pool.imap(_expand, tasks, _chunks(len(tasks), workers))):
+        for (h, pre), (succs, counters) in zip(owners, pool.imap(_expand, tasks, _chunks(len(tasks), workers))):
             if budget_s is not None and time.time() - t_start > budget_s:
                 _finish_capped(res, cfg, states, transitions, depth, t0, f"time budget {budget_s}s used up inside depth {depth + 1}; depth {depth} was completed")
                 raise _BudgetExceeded()
